@@ -26,7 +26,7 @@ def errToString : Err → String
   | .cast => "cast" | .conversion => "conversion" | .activation => "activation"
   | .invalidTensor => "invalidTensor" | .model => "model" | .unsupportedOp => "unsupportedOp"
   | .unsupportedOpset => "unsupportedOpset" | .invalidType => "invalidType"
-  | .gorgonia => "gorgonia" | .other => "other" | .panic => "panic"
+  | .gorgonia => "gorgonia" | .other => "other" | .panic => "panic" | .unmodelled => "unmodelled"
 
 def getStr (j : Json) (k : String) : String :=
   match j.getObjVal? k with
@@ -57,6 +57,7 @@ def jsonNats (a : Array Json) : List Nat :=
 /-- status object for an error / panic outcome -/
 def errJson (e : Err) : Json :=
   if e == .panic then Json.mkObj [("status", "panic")]
+  else if e == .unmodelled then Json.mkObj [("status", "unmodelled")]
   else Json.mkObj [("status", "error"), ("errkind", errToString e)]
 
 def optDtJson : Option DType → Json
